@@ -30,10 +30,12 @@ FS0 == ( <<"root">> :> D
      @@ <<"outside", "secret.txt">> :> F("OUT:secret.txt")
      @@ <<"outside", "a.txt">> :> F("OUT:a.txt")
      @@ <<"rootx">> :> D                                     \* a sibling whose NAME begins with the search path's name
-     @@ <<"rootx", "a.txt">> :> F("OUT:rootx/a.txt") )
+     @@ <<"rootx", "a.txt">> :> F("OUT:rootx/a.txt")
+     @@ <<"root", "link_x.txt">> :> Lnk(<<"rootx", "a.txt">>)      \* links into that sibling: a containment test on path STRINGS lets them through
+     @@ <<"root", "dlink_x">> :> Lnk(<<"rootx">>) )
 
 Comps == {"a.txt", "sub", "b.txt", "..", ".", "", "link_out.txt", "dlink_out", "secret.txt", "link_in.txt",
-          "dlink_in", "noext", "a", "outside", "uni.txt", "nul", "ctl", "long", "root", "rootx"}
+          "dlink_in", "noext", "a", "outside", "uni.txt", "nul", "ctl", "long", "root", "rootx", "link_x.txt", "dlink_x"}
 Prefixes == {"rel", "abs_root", "abs_outside", "abs_world"}
 Exts == {"none", ".txt"}
 
@@ -41,7 +43,7 @@ Exts == {"none", ".txt"}
 (* pathlib normalisation: "." and "" components vanish *)
 Norm(cs) == SelectSeq(cs, LAMBDA c : c \notin {".", ""})
 
-HasSuffix(c) == c \in {"a.txt", "b.txt", "link_out.txt", "secret.txt", "link_in.txt", "uni.txt"}
+HasSuffix(c) == c \in {"a.txt", "b.txt", "link_out.txt", "secret.txt", "link_in.txt", "uni.txt", "link_x.txt"}
 ApplyExt(cs, ext) ==
   IF ext = "none" \/ cs = <<>> \/ HasSuffix(cs[Len(cs)]) \/ cs[Len(cs)] = ".." THEN cs
   ELSE [cs EXCEPT ![Len(cs)] = CASE @ = "a" -> "a.txt" [] @ = "sub" -> "sub.txt" [] OTHER -> @ \o ".txt"]
